@@ -280,12 +280,11 @@ def entity_literals(s):
     return {m.group(1): m.group(3) for m in ENTITY_DECL.finditer(s)}
 
 def has_reference_to_markup_entity(s):
-    """some general entity whose literal yields replacement text with '<' or '&' (markup or a
-    reference, written directly or through a character reference to '&' / '<') is referenced"""
+    """some REFERENCED general entity has a literal that contains a raw '<' or a character
+    reference to '&' (#38) or '<' (#60): its replacement text contains markup or a reference
+    that only exists after the first expansion"""
     ents = entity_literals(s)
     for nm, lit in ents.items():
-        expanded = re.sub(r'&#x([0-9a-fA-F]+);', lambda m: chr(int(m.group(1), 16)) if int(m.group(1), 16) < 0x110000 else '?', lit)
-        expanded = re.sub(r'&#([0-9]+);', lambda m: chr(int(m.group(1))) if int(m.group(1)) < 0x110000 else '?', expanded)
-        if ('<' in expanded or '&' in expanded) and ('&%s;' % nm) in s:
+        if ('<' in lit or re.search(r'&#(x0*(26|3[cC])|0*(38|60));', lit)) and ('&%s;' % nm) in s:
             return True
     return False
